@@ -25,6 +25,9 @@ BUILT = {
  "C13": ("property-based fault injection into call histories (one or two malformed arguments), differential twin for state preservation",
          "A valid generated prefix, one malformed call (channel counts, short buffers, mask length) through process_into_buffer / process / process_partial_into_buffer, then a suffix compared bit-for-bit with a twin that never saw the malformed call; expected variant and fields computed by the harness; all seven constructors with each invalid argument class. Exploration level.",
          "multi-fault calls may return any matching error; NaN ratios not asserted; input-shape faults through process_partial_into_buffer not asserted (documented padding)"),
+ "C17": ("differential property-based testing: the same generated history on the f32 and the f64 instantiation",
+         "Generated histories (all seven types, sinc tables up to 512x2048 points) are executed on an f32 and an f64 instance fed the same f32-representable samples: getters, returned counts and frames written must be equal at every step, outputs within 64 eps_f32 x peak. Exploration level.",
+         "inputs rounded to f32; benign envelope for fixed-input ratio changes"),
 }
 SECTION = {f"C{n:02d}": f"DESIGN.md §5/C{n:02d}" for n in range(1, 19)}
 ALL = [f"C{n:02d}" for n in range(1, 19)]
